@@ -32,6 +32,8 @@ import OxiddModel.Bcdd.DriverC04S
 import OxiddModel.Reorder.DriverHashed
 import OxiddModel.Tdd.DriverRc
 import OxiddModel.Num.DriverF64Count
+import OxiddModel.Num.DriverNaturalF64
+import OxiddModel.Mtbdd.DriverTermText
 
 open OxiddModel
 
@@ -81,7 +83,9 @@ def protos : List (String × Proto) := [
   ("bcdd-c04s-4", OxiddModel.Bcdd.DriverC04S.proto4),
   ("reorder-hashed", OxiddModel.Reorder.SwapHashed.Driver.proto),
   ("tdd-rc", OxiddModel.Tdd.DriverRc.proto),
-  ("f64count", OxiddModel.Num.F64C.Driver.proto)
+  ("f64count", OxiddModel.Num.F64C.Driver.proto),
+  ("natf64", OxiddModel.Num.NatF64.Driver.proto),
+  ("termtext", OxiddModel.Mtbdd.TermText.Driver.proto)
 ]
 
 def main (args : List String) : IO UInt32 := do
